@@ -49,7 +49,7 @@ fn op(maxp: usize) -> BoxedStrategy<Op> {
     prop_oneof![
         3 => (0u8..3).prop_map(Op::SetMode),
         3 => (0u16..1024).prop_map(Op::SetSubset),
-        8 => (pieces(maxp), prop::bool::weighted(0.8)).prop_map(|(p, c)| Op::Analyse(p, c)),
+        8 => (pieces_long(maxp), prop::bool::weighted(0.8)).prop_map(|(p, c)| Op::Analyse(p, c)),
         1 => (0u16..800).prop_map(Op::Oversized),
         1 => Just(Op::Empty),
         1 => Just(Op::Expanding),
